@@ -824,3 +824,156 @@ class NormFactorVerified(Contract):
         val = z3.RealVal(result) if isinstance(result, int) else as_expr(result).f["val"]
         return [("is-the-series-coefficient-of-the-inverse-overlap",
                  val == z3.If(n < 2, OVERLAP(n), NF_OUTER(n, n / 2)))]
+
+
+# --- Operators.excitation_operator / Operators.operator ------------------------------------------
+OPK = "adcgen.operators:Operators"
+
+
+def _op_model(kind):
+    def model(ip, args, kwargs):
+        return Struct("OpV", kind=kind, idx=args[0])
+    return model
+
+
+def _mul_ops(ip, args, kwargs):
+    if all(isinstance(x, Struct) and x.cls == "OpV" for x in args):
+        return Struct("OpStringV", ops=tuple(args))
+    raise Unsupported("Mul of these factors")
+
+
+def _opstring_arith(ip, opn, a, b):
+    """1 * string, string * string (concatenation in the given order), scalar * string"""
+    if opn != "Mult":
+        raise Unsupported("arithmetic on operator strings")
+    def parts(v):
+        if isinstance(v, Struct) and v.cls == "OpStringV":
+            return (), v.f["ops"]
+        if isinstance(v, Struct) and v.cls == "WeightedOps":
+            return v.f["factors"], v.f["ops"]
+        if isinstance(v, int) and v == 1:
+            return (), ()
+        return (v,), ()
+    fa, oa = parts(a)
+    fb, ob = parts(b)
+    if not fa and not fb:
+        return Struct("OpStringV", ops=tuple(oa) + tuple(ob))
+    return Struct("WeightedOps", factors=tuple(fa) + tuple(fb), ops=tuple(oa) + tuple(ob))
+
+
+C.STRUCT_ARITH["OpStringV"] = _opstring_arith
+C.STRUCT_ARITH["WeightedOps"] = _opstring_arith
+C.STRUCT_ARITH["TensorD"] = _opstring_arith
+
+
+@register
+class _GetSymbolsIdentity(Contract):
+    key = "adcgen.indices:get_symbols"
+    props = []
+    assumed = True
+    note = "a list of Index objects is returned unchanged"
+
+    def apply(self, vc, a):
+        return a["indices"]
+
+
+@register
+class ExcitationOperatorVerified(Contract):
+    key = OPK + ".excitation_operator"
+    props = ["C02"]
+    SHAPES = [(c, a_, rev) for c in (None, 0, 1, 2, 3) for a_ in (None, 0, 1, 2, 3) for rev in (True, False)]
+    split_first_choice = len(SHAPES)
+
+    def setup(self, vc):
+        from spec.idx import new_index
+        nc, na, rev = self.SHAPES[vc.choose(len(self.SHAPES), "shape")]
+        C.EXTERNALS["sympy.physics.secondquant.Fd"] = _op_model("create")
+        C.EXTERNALS["sympy.physics.secondquant.F"] = _op_model("annihilate")
+        C.EXTERNALS["sympy.Mul"] = _mul_ops
+        cre = None if nc is None else tuple(new_index(vc, f"c{k}") for k in range(nc))
+        ann = None if na is None else tuple(new_index(vc, f"a{k}") for k in range(na))
+        return {"self": Inst(OPK, {}), "creation": cre, "annihilation": ann, "reverse_annihilation": rev}
+
+    def apply(self, vc, a):
+        if "_op" in vc.ghost:
+            # inside the verification of Operators.operator: the verified body itself
+            return vc.ip.run_body(self.key, {k: v for k, v in a.items() if not k.startswith("_")})
+        return G.ExcitationOperator.apply(self, vc, a)
+
+    def post(self, vc, a, result):
+        want = []
+        for s in (a["creation"] or ()):
+            want.append(("create", s))
+        ann = list(a["annihilation"] or ())
+        if a["reverse_annihilation"]:
+            ann = ann[::-1]
+        for s in ann:
+            want.append(("annihilate", s))
+        if isinstance(result, int):
+            return [("no-operators-gives-one", result == 1 and not want)]
+        if not (isinstance(result, Struct) and result.cls == "OpStringV"):
+            return [("returns-an-operator-string", False)]
+        got = [(o.f["kind"], o.f["idx"]) for o in result.f["ops"]]
+        same = len(got) == len(want) and all(g[0] == w[0] and g[1] is w[1] for g, w in zip(got, want))
+        return [("creators-in-the-given-order-then-annihilators-(reversed-on-request)", same)]
+
+
+@register
+class OperatorsOperatorVerified(Contract):
+    key = OPK + ".operator"
+    props = ["C02"]
+    SHAPES = [(c, a_) for c in (0, 1, 2) for a_ in (0, 1, 2)]
+
+    def setup(self, vc):
+        from spec.idx import new_index
+        nc, na = self.SHAPES[vc.choose(len(self.SHAPES), "shape")]
+        C.EXTERNALS["sympy.physics.secondquant.Fd"] = _op_model("create")
+        C.EXTERNALS["sympy.physics.secondquant.F"] = _op_model("annihilate")
+        C.EXTERNALS["sympy.Mul"] = _mul_ops
+        fresh = PList([new_index(vc, f"g{k}") for k in range(nc + na)])
+        vc.ghost["_op"] = {"fresh": fresh, "nc": nc, "na": na}
+
+        def gen(ip, obj, args, kwargs):
+            ok = kwargs == {"general": nc + na} and not args
+            ip.vc.check("indices#requests-n_create-plus-n_annihilate-fresh-general-indices", ok)
+            return PDict({("general", ""): fresh})
+        C.STRUCT_METHODS[("IndicesV", "get_generic_indices")] = gen
+        C.CLASS_MODELS["adcgen.sympy_objects:AntiSymmetricTensor"] = \
+            lambda ip, args, kwargs: Struct("TensorD", name=args[0], upper=args[1], lower=args[2])
+        C.EXTERNALS["sympy.Rational"] = lambda ip, args, kwargs: Struct("RatV", p=args[0], q=args[1])
+        C.STRUCT_ARITH["RatV"] = _opstring_arith
+        return {"self": Inst(OPK, {"_indices": Struct("IndicesV")}), "n_create": nc, "n_annihilate": na}
+
+    def closure(self, vc, a):
+        return {}
+
+    def apply(self, vc, a):
+        return _OperatorsOperatorAssumed.apply(self, vc, a)
+
+    def post(self, vc, a, result):
+        import math
+        st = vc.ghost["_op"]
+        nc, na, fresh = st["nc"], st["na"], st["fresh"].items
+        if not (isinstance(result, tuple) and len(result) == 2 and result[1] is None):
+            return [("returns-(operator, no rules)", False)]
+        op = result[0]
+        if not (isinstance(op, Struct) and op.cls == "WeightedOps"):
+            return [("operator-is-prefactor-times-tensor-times-operator-string", False)]
+        facs = list(op.f["factors"])
+        tens = [f for f in facs if isinstance(f, Struct) and f.cls == "TensorD"]
+        nums = [f for f in facs if not (isinstance(f, Struct) and f.cls == "TensorD")]
+        ok_t = len(tens) == 1 and [x for x in (tens[0].f["upper"].items if isinstance(tens[0].f["upper"], PList) else tens[0].f["upper"])] == fresh[:nc] \
+            and [x for x in (tens[0].f["lower"].items if isinstance(tens[0].f["lower"], PList) else tens[0].f["lower"])] == fresh[nc:]
+        want_ops = [("create", s) for s in fresh[:nc]] + [("annihilate", s) for s in fresh[nc:][::-1]]
+        got_ops = [(o.f["kind"], o.f["idx"]) for o in op.f["ops"]]
+        ok_o = len(got_ops) == len(want_ops) and all(g[0] == w[0] and g[1] is w[1] for g, w in zip(got_ops, want_ops))
+        pref = z3.RealVal(1)
+        for x in nums:
+            if isinstance(x, Struct) and x.cls == "RatV":
+                pref = pref * real(x.f["p"]) / real(x.f["q"])
+            else:
+                pref = pref * as_expr(x).f["val"]
+        return [("tensor-d-carries-the-creator-indices-above-and-the-annihilator-indices-below", bool(ok_t)),
+                ("operator-string-is-creators-then-reversed-annihilators", bool(ok_o)),
+                ("prefactor-is-1/(n_create! n_annihilate!)",
+                 pref == z3.RealVal(1) / (math.factorial(nc) * math.factorial(na)))]
